@@ -7,7 +7,7 @@
 From Coq Require Import ZArith Bool List Lia.
 From MomoCommon Require Import GenPrelude.
 From C15 Require Import Gen_VersionKeeper Gen_ArrayIndexIterator Gen_ArrayShifter Gen_ArrayGuards Gen_MultiMapGuards
-  Gen_SelectionGuards Gen_TableGuards Gen_TreeIterator Gen_SegmentedArrayGuards Gen_DataRawIterator Gen_MultiHashIterator Version VersionProofs Arr.
+  Gen_SelectionGuards Gen_TableGuards Gen_TreeIterator Gen_SegmentedArrayGuards Gen_DataRawIterator Gen_MultiHashIterator Version VersionProofs Arr MultiMap.
 Local Open Scope Z_scope.
 (* robustness: a regenerated term that makes a tactic run away fails the proof (prove BROKEN) instead of hanging the build *)
 Set Default Timeout 300.
@@ -348,3 +348,29 @@ Proof.
   intros Hi Hd Hn H. rewrite (mh_advance_exact r0 rb i cnt d Hi Hd). unfold mh_accepts.
   destruct (Z.eqb_spec d 0); [lia|]. destruct (Z.leb_spec (i + d) cnt); [lia|]. rewrite Bool.andb_false_r. reflexivity.
 Qed.
+
+(* ---------- HashMultiMap::pvMakeIterator(keyIter, valueIndex) = MakeIterator (final round) ----------
+   the prefix after the empty-iterator shortcut: CheckKeyIterator(keyIter) (skipped: it is VersionKeeper::Check(version, allowEmpty), proved
+   above) and MOMO_CHECK(valueIndex <= keyIter->GetCount()): index = count (the end of the key's values) is ACCEPTED, count + 1 is not *)
+Lemma mm_make_iterator_guard_exact cnt i : MakeIt_guard cnt i = if i <=? cnt then Ok tt else Exn.
+Proof.
+  unfold MakeIt_guard, Gen_MultiMapGuards.checkMode. change (negb (2 =? 1)) with true. change (2 =? 2) with true. cbn [orb].
+  destruct (i <=? cnt); reflexivity.
+Qed.
+(* refinement: on a current key iterator that points to a key (the only case that reaches the check) the hand model MultiMap.v decides
+   MakeIterator exactly as the generated guard does on the key's value count *)
+Lemma mm_model_makeit_is_generated s sk idx slot k vs :
+  (forall z, kp (mhs s sk) <> KGap z \/ idx <> O) -> kp (mhs s sk) <> KUnk ->
+  kcont s (mhs s sk) true = true -> kderef s (mhs s sk) = Some (Some (k, vs)) ->
+  snd (mstep s (MMakeIt sk idx slot)) =
+    match MakeIt_guard (Z.of_nat (length vs)) (Z.of_nat idx) with Ok _ => MAcc None | _ => MRej end.
+Proof.
+  intros G U C D. rewrite mm_make_iterator_guard_exact. cbn [mstep]; cbv zeta.
+  assert (E : (Z.of_nat idx <=? Z.of_nat (length vs)) = Nat.leb idx (length vs)).
+  { destruct (Z.leb_spec (Z.of_nat idx) (Z.of_nat (length vs))), (Nat.leb_spec idx (length vs)); try reflexivity; lia. }
+  rewrite E.
+  destruct (kp (mhs s sk)) as [z|z|] eqn:P; [| |congruence].
+  - rewrite C, D. destruct idx; destruct (Nat.leb _ (length vs)); reflexivity.
+  - destruct idx as [|n]; [destruct (G z) as [H|H]; congruence|]. rewrite C, D. destruct (Nat.leb (S n) (length vs)); reflexivity.
+Qed.
+
